@@ -367,7 +367,7 @@ class Reference:
 
     def format(self) -> str:
         ref_to = self.ref_to
-        if isinstance(ref_to, Array):
+        if isinstance(ref_to, (Array, FunctionType)):
             return ref_to.format_decl("(&)")
         else:
             return f"{ref_to.format()}&"
@@ -376,7 +376,7 @@ class Reference:
         """Format as a named declaration"""
         ref_to = self.ref_to
 
-        if isinstance(ref_to, Array):
+        if isinstance(ref_to, (Array, FunctionType)):
             return ref_to.format_decl(f"(& {name})")
         else:
             return f"{ref_to.format()}& {name}"
